@@ -12,6 +12,11 @@
 //     (`F(m)`: the callee then uses alt.DefaultOptions);
 //   - whether the type switch of Generify / GenAlter has a `json.Number` clause `n = gen.Big(tv)`.
 //
+//   - ojWriterViaSimplify / senWriterViaSimplify: the type switch of oj.Writer.appendJSON /
+//     sen.Writer.appendSEN names no type of package gen before its `case alt.Simplifier:` clause and
+//     that clause is `wr.appendJSON(td.Simplify(), depth)` (resp. appendSEN): a generic node is written
+//     by writing its Simplify() result.
+//
 // Fails loudly on a source shape it cannot read.
 package main
 
@@ -249,6 +254,59 @@ func convSwitch(f *ast.File, name string) (convSwitchFacts, error) {
 	return res, nil
 }
 
+// convWriterViaSimplify reads the type switch of method fn in file f.
+func convWriterViaSimplify(f *ast.File, rel, fn string) (bool, error) {
+	var fd *ast.FuncDecl
+	for _, d := range f.Decls {
+		if x, ok := d.(*ast.FuncDecl); ok && x.Recv != nil && x.Name.Name == fn {
+			fd = x
+		}
+	}
+	if fd == nil || fd.Body == nil {
+		return false, fmt.Errorf("%s: method %s not found", rel, fn)
+	}
+	var ts *ast.TypeSwitchStmt
+	ast.Inspect(fd.Body, func(n ast.Node) bool {
+		if x, ok := n.(*ast.TypeSwitchStmt); ok && ts == nil {
+			ts = x
+			return false
+		}
+		return true
+	})
+	if ts == nil {
+		return false, fmt.Errorf("%s: %s has no type switch", rel, fn)
+	}
+	for _, st := range ts.Body.List {
+		cc := st.(*ast.CaseClause)
+		for _, tx := range cc.List {
+			name := convTypeText(tx)
+			if strings.HasPrefix(name, "gen.") {
+				return false, nil // a generic type has its own clause before the Simplifier clause
+			}
+			if name != "alt.Simplifier" {
+				continue
+			}
+			if len(cc.List) != 1 || len(cc.Body) != 1 {
+				return false, nil
+			}
+			es, ok := cc.Body[0].(*ast.ExprStmt)
+			if !ok {
+				return false, nil
+			}
+			call, ok := es.X.(*ast.CallExpr)
+			if !ok || convTypeText(call.Fun) != "wr."+fn || len(call.Args) != 2 {
+				return false, nil
+			}
+			inner, ok := call.Args[0].(*ast.CallExpr)
+			if !ok || convTypeText(inner.Fun) != "td.Simplify" || len(inner.Args) != 0 {
+				return false, nil
+			}
+			return true, nil
+		}
+	}
+	return false, nil
+}
+
 func extractConv(repo, out string) ([]string, error) {
 	fset := token.NewFileSet()
 	parse := func(rel string) (*ast.File, error) {
@@ -288,6 +346,20 @@ func extractConv(repo, out string) ([]string, error) {
 		fmt.Fprintf(&b, "/-- alt.%s, `[]any` clause: the recursive call passes `opt` on -/\ndef %sArrPassesOpt : Bool := %v\n\n", fn, lower, sf.arrPasses)
 		fmt.Fprintf(&b, "/-- alt.%s, `map[string]any` clause: the recursive call passes `opt` on -/\ndef %sMapPassesOpt : Bool := %v\n\n", fn, lower, sf.mapPasses)
 		fmt.Fprintf(&b, "/-- alt.%s has a `case json.Number: n = gen.Big(tv)` clause -/\ndef %sBigCase : Bool := %v\n\n", fn, lower, sf.bigCase)
+	}
+	for _, w := range []struct{ rel, fn, name string }{
+		{"oj/writer.go", "appendJSON", "ojWriterViaSimplify"},
+		{"sen/writer.go", "appendSEN", "senWriterViaSimplify"},
+	} {
+		wf, err := parse(w.rel)
+		if err != nil {
+			return nil, err
+		}
+		v, err := convWriterViaSimplify(wf, w.rel, w.fn)
+		if err != nil {
+			return nil, err
+		}
+		fmt.Fprintf(&b, "/-- %s, %s: a generic node is written as its Simplify() result -/\ndef %s : Bool := %v\n\n", w.rel, w.fn, w.name, v)
 	}
 	b.WriteString("end OjgVerif.Gen.Conv\n")
 	ch, err := writeIfChanged(filepath.Join(out, "Conv.lean"), b.String())
